@@ -114,6 +114,13 @@ def run(rep, tier, root=None):
     mean_atoms = find_atoms(r0fs, lambda a: isinstance(a, Fn) and a.name == "mean")
     ok_shape = len(var_atoms) == 1 and len(mean_atoms) == 1 and \
         var_atoms[0].args[0] == Rat.sym("slopes") and var_atoms[0].args[1] == -1
+    if ok_shape:
+        # ... and it is the per-measurement r0 (the -3/5 power of each variance) that is averaged, not the variances: the power law
+        # is not linear, so r0(mean of variances) differs from mean of r0(variance) as soon as the rows have unequal variances
+        inner = mean_atoms[0].args[0]
+        dg = inner.degree(var_atoms[0]) if isinstance(inner, Rat) else None
+        from fractions import Fraction as _Fr
+        ok_shape = dg is not None and _Fr(dg).limit_denominator(1000) == _Fr(-3, 5)
     rep.check(ok_shape, "I1.slope-variance-shape", ATM + ":r0_from_slopes:var(axis=-1) then mean",
               "r0_from_slopes must take the variance over the frame axis (-1) and average the per-measurement r0",
               F(ATM, "r0_from_slopes").where(), detail={"found": nf(r0fs)})
